@@ -241,15 +241,19 @@ func observe(u *qt.Universe, q *quadtree.Quadtree, contents []*qt.P, outcomes ma
 							what := fmt.Sprintf("KNearestMatching(buf%d,%v,k=%d,%s,maxDist=%v)", bi, pt, k, f.name, md)
 							guard(what, func() {
 								var got []orb.Pointer
+								lim := []float64{md} // the caller's own slice, spread into the variadic parameter
 								switch {
 								case f.f == nil && md < 0:
 									got = q.KNearest(buf, pt, k)
 								case f.f == nil:
-									got = q.KNearest(buf, pt, k, md)
+									got = q.KNearest(buf, pt, k, lim...)
 								case md < 0:
 									got = q.KNearestMatching(buf, pt, k, f.f)
 								default:
-									got = q.KNearestMatching(buf, pt, k, f.f, md)
+									got = q.KNearestMatching(buf, pt, k, f.f, lim...)
+								}
+								if lim[0] != md {
+									fail("argument-modified", "%s changed the caller's distance-limit slice from %v to %v", what, md, lim[0])
 								}
 								n++
 								if bi == 0 && len(got) > 0 {
